@@ -28,18 +28,30 @@ RULE = ("every transition of the TLC-explored state graph of spec/DictObj.tla (a
 
 CLASSES = {"ci": impl.CaseInsensitiveOrderedDict, "dod": impl.DefaultOrderedDict}
 KEYS_CI = {"a", "A", "b", "B", "layers", "LAYERS"}
+KEYS_DUNDER = {"a", "A", "__type__", "__TYPE__", "layers", "LAYERS"}     # bookkeeping keys are keys like any other
+# dictionaries the library itself hands out: (document, path to the dict inside the loaded tree)
+ORIGIN_DOCS = {
+    "loads:map": ('MAP NAME "m" END', []),
+    "loads:layer": ('LAYER NAME "l" TYPE POINT END', []),
+    "loads:metadata": ('METADATA "wms_title" "t" END', []),
+    "loads:validation": ('VALIDATION "p" "^a$" END', []),
+    "loads:map.web.metadata": ('MAP WEB METADATA "wms_title" "t" END END END', ["web", "metadata"]),
+    "loads:layer.connectionoptions": ('LAYER CONNECTIONOPTIONS "k" "v" END END', ["connectionoptions"]),
+    "loads:layer.class.style": ('LAYER CLASS STYLE WIDTH 1 END END END', ["classes", 0, "styles", 0]),
+    "loads:scaletoken.values": ('SCALETOKEN NAME "%x%" VALUES "0" "a" END END', ["values"]),
+}
 KEYS_DOD = {"a", "b", "layers"}
 INVARIANTS = ["KeysLowerUnique", "HeapClosed"]
 PROPERTIES = ["FirstInsertionOrder", "CopyLaws", "AutoCreation", "Refines"]
 
 
 def constants(cls="ci", keys=None, steps=3, pairs=1, setvals=("i1", "i2", "list", "dict", "ldict", "llist", "dll"),
-              pairvals=("i1", "list"), factories=("None", "Dict"), adopt=False, mode="graph", bug="none", mixed=False):
+              pairvals=("i1", "list"), factories=("None", "Dict"), adopt=False, mode="graph", bug="none", mixed=False, origins=("ctor",)):
     keys = keys or (KEYS_CI if cls == "ci" else KEYS_DOD)
     nk = len({k.lower() for k in keys})
     return {"Keys": set(keys), "Cls": cls, "MaxId": 6 * nk + 3 * pairs + 4, "MaxSteps": steps, "MaxPairs": pairs,
             "SetVals": set(setvals), "PairVals": set(pairvals), "Factories": set(factories),
-            "AdoptSet": "@{FALSE, TRUE}" if adopt else "@{FALSE}", "Mode": mode, "Bug": bug, "Mixed": mixed}
+            "AdoptSet": "@{FALSE, TRUE}" if adopt else "@{FALSE}", "Mode": mode, "Bug": bug, "Mixed": mixed, "Origins": set(origins)}
 
 
 def graph_job(tag, **kw):
@@ -257,9 +269,18 @@ def step(cls, d, e, B):
     return nd
 
 
-def fresh(cls, factory):
-    C = CLASSES[cls]
-    return C(C) if factory == "Dict" else C()
+def fresh(cls, factory, source="ctor"):
+    """the dictionary under test: constructed directly, or one the library hands out (emptied through its own API)"""
+    if source == "ctor":
+        C = CLASSES[cls]
+        return C(C) if factory == "Dict" else C()
+    text, path = ORIGIN_DOCS[source]
+    d = impl.loader(expand_includes=False)(text)
+    for p in path:
+        d = d[p]
+    for k in list(d.keys()):
+        del d[k]
+    return d
 
 
 # ----------------------------------------------------------------------------- signatures, reproductions
@@ -330,17 +351,22 @@ def src(cls, e):
     return "list(d.keys())"
 
 
-def reproduction(cls, f0, steps):
+def reproduction(cls, f0, steps, source="ctor"):
     C = CLASSES[cls].__name__
-    head = "from mappyfile.ordereddict import %s as C; import copy, pickle" % C
-    return [head, "d = C(C)" if f0 == "Dict" else "d = C()"] + [src(cls, e) for e in steps]
+    head = "import mappyfile, copy, pickle; from mappyfile.ordereddict import %s as C" % C
+    if source == "ctor":
+        first = "d = C(C)" if f0 == "Dict" else "d = C()"
+    else:
+        text, path = ORIGIN_DOCS[source]
+        first = "d = mappyfile.loads(%r)%s; [d.pop(k) for k in list(d)]" % (text, "".join("[%r]" % p for p in path))
+    return [head, first] + [src(cls, e) for e in steps]
 
 
-def run_behaviour(ck, cls, f0, steps, check_from=0, origin="graph"):
+def run_behaviour(ck, cls, f0, steps, check_from=0, origin="graph", source="ctor"):
     """replay steps on a fresh dict; violations are reported for steps >= check_from (earlier steps are the
     path to the pre-state: each of them is a transition tested in its own right).  Returns False when the
     behaviour could not be followed to its end."""
-    d = fresh(cls, f0)
+    d = fresh(cls, f0, source)
     B = Binding()
     pre_items = []
     for i, e in enumerate(steps):
@@ -349,8 +375,10 @@ def run_behaviour(ck, cls, f0, steps, check_from=0, origin="graph"):
         except Mismatch as m:
             if i >= check_from:
                 sig = signature(cls, e["fpre"], pre_items, e["op"], m.aspect)
+                if source != "ctor":
+                    sig += "|" + source
                 case = {"cls": cls, "f0": f0, "steps": steps[: i + 1], "origin": origin,
-                        "python": reproduction(cls, f0, steps[: i + 1]), "expected": {"ret": e["ret"], "items": e["items"]}}
+                        "source": source, "python": reproduction(cls, f0, steps[: i + 1], source), "expected": {"ret": e["ret"], "items": e["items"]}}
                 if origin.startswith("walk") and os.path.exists(replay_path(sig)):
                     case = None          # keep the (shorter) reproduction a graph run wrote for the same signature
                 ck.violation(sig, "%s on %s(%s): %s" % (src(cls, e), CLASSES[cls].__name__, e["fpre"], m.detail), case)
@@ -378,8 +406,8 @@ def live_ids(e):
     return seen
 
 
-def state_key(items, factory, heap):
-    return json.dumps([items, factory, heap], sort_keys=True)
+def state_key(items, factory, heap, source="ctor"):
+    return json.dumps([items, factory, heap, source], sort_keys=True)
 
 
 def replay_graph(ck, cls, edges, origin):
@@ -390,12 +418,12 @@ def replay_graph(ck, cls, edges, origin):
     for ed in edges:
         pre = ed["pre"]
         if not pre["items"]:
-            inits.add(state_key([], pre["factory"], []))
+            inits.add(state_key([], pre["factory"], [], pre["origin"]))
     for ed in edges:
         e = ed["e"]
         e["post"] = ed["post"]
-        pk = state_key(ed["pre"]["items"], ed["pre"]["factory"], ed["pre"]["heap"])
-        qk = state_key(e["items"], e["factory"], ed["post"])
+        pk = state_key(ed["pre"]["items"], ed["pre"]["factory"], ed["pre"]["heap"], ed["pre"]["origin"])
+        qk = state_key(e["items"], e["factory"], ed["post"], ed["pre"]["origin"])
         ed["pk"] = pk
         if qk not in parent and qk not in inits:
             parent[qk] = ed
@@ -409,11 +437,11 @@ def replay_graph(ck, cls, edges, origin):
             path.append(p["e"])
             k = p["pk"]
         path.reverse()
-        f0 = json.loads(k)[1]
+        f0, source = json.loads(k)[1], json.loads(k)[3]
         ck.count()
         e = ed["e"]
         ck.nontrivial("%s|%s|%s|%s|%s" % (cls, e["fpre"], e["op"]["name"], key_class(ed["pre"]["items"], e["op"]), e["ret"]["t"]))
-        if not run_behaviour(ck, cls, f0, path + [e], check_from=len(path), origin=origin):
+        if not run_behaviour(ck, cls, f0, path + [e], check_from=len(path), origin=origin, source=source):
             n_skipped += 1
     return n_skipped
 
@@ -452,8 +480,8 @@ def plan(tier, seed):
     jobs = []
     if tier == "quick":
         for f in ("None", "Dict"):
-            jobs.append(("graph", "ci", "h3p1-" + f, graph_job("c17_g_ci_h3_%s" % f, cls="ci", steps=3, pairs=1, factories=(f,),
-                                                               setvals=("i1", "i2", "list", "ldict", "llist", "dll"))))
+            jobs.append(("graph", "ci", "h3p1-" + f, graph_job("c17_g_ci_h3_%s" % f, cls="ci", steps=3, pairs=1, factories=(f,), keys=KEYS_DUNDER,
+                                                               setvals=("i1", "list", "ldict", "llist", "dll"), pairvals=("i2", "list"))))
             jobs.append(("graph", "ci", "h2p2-" + f, graph_job("c17_g_ci_h2p2_%s" % f, cls="ci", steps=2, pairs=2,
                                                                setvals=("i0", "dict", "llist"), factories=(f,),
                                                                pairvals=("i1", "list") if f == "None" else ("i2",))))
@@ -464,10 +492,14 @@ def plan(tier, seed):
                                                             keys={"a", "A", "b", "B"}, setvals=("i1",), pairvals=("i2", "list"))))
         jobs.append(("graph", "dod", "mixed-h2p1", graph_job("c17_g_dod_mixed", cls="dod", steps=2, pairs=1, mixed=True,
                                                              keys={"a", "b"}, setvals=("i1",), pairvals=("i2", "list"))))
+        # dictionaries handed out by loads (root blocks, key/value blocks, nested blocks) as subjects
+        jobs.append(("graph", "ci", "loads-h2p1", graph_job("c17_g_ci_loads", cls="ci", steps=2, pairs=1, origins=tuple(ORIGIN_DOCS),
+                                                            keys={"a", "A", "__type__", "__Type__", "layers", "LAYERS"},
+                                                            setvals=("i1", "list"), pairvals=("i1",))))
         nw, nwd = 60, 20
     else:
         for f in ("None", "Dict"):
-            jobs.append(("graph", "ci", "h4p1-" + f, graph_job("c17_g_ci_h4_%s" % f, cls="ci", steps=4, pairs=1, factories=(f,),
+            jobs.append(("graph", "ci", "h4p1-" + f, graph_job("c17_g_ci_h4_%s" % f, cls="ci", steps=4, pairs=1, factories=(f,), keys=KEYS_DUNDER,
                                                                setvals=("i1", "i2", "list", "ldict", "llist", "dll"))))
             jobs.append(("graph", "ci", "h3p2-" + f, graph_job("c17_g_ci_h3p2_%s" % f, cls="ci", steps=3, pairs=2,
                                                                setvals=("i0", "list", "llist", "dll"), factories=(f,))))
@@ -480,11 +512,15 @@ def plan(tier, seed):
                                                             setvals=("i1",), pairvals=("i2", "list"))))
         jobs.append(("graph", "dod", "mixed-h3p1", graph_job("c17_g_dod_mixed", cls="dod", steps=3, pairs=1, mixed=True,
                                                              setvals=("i1",), pairvals=("i2", "list"))))
+        jobs.append(("graph", "ci", "loads-h3p1", graph_job("c17_g_ci_loads", cls="ci", steps=3, pairs=1, origins=tuple(ORIGIN_DOCS),
+                                                            keys={"a", "A", "__type__", "__Type__", "layers", "LAYERS"},
+                                                            setvals=("i1", "list"), pairvals=("i1",))))
         nw, nwd = 1000, 300
     nsplit = 3 if tier == "quick" else 6
     for i in range(nsplit):
         jobs.append(("walk", "ci", "d40-%d" % i, walk_job("c17_w_ci_%d" % i, nw // nsplit, 40, seed * 100 + i + 1, cls="ci", pairs=2,
-                                                          keys=KEYS_CI | {"classes", "Classes"})))
+                                                          keys=KEYS_DUNDER | {"__Type__", "classes", "Classes"},
+                                                          origins=("ctor",) + tuple(ORIGIN_DOCS))))
     jobs.append(("walk", "dod", "d40", walk_job("c17_w_dod", nwd, 40, seed * 100 + 50, cls="dod", pairs=2)))
     # negative configs: deliberately wrong variants of the spec that TLC has to reject (non-vacuity of (M))
     for bug in NEGATIVE:
@@ -513,7 +549,7 @@ def work(args):
     if not model_violation(ck, rn, r):
         if kind == "graph":
             edges = [p for p in r.prints if isinstance(p, dict) and "pre" in p]
-            if len(edges) != (r.states or 0) - len({p["pre"]["factory"] for p in edges if not p["pre"]["items"]}):
+            if len(edges) != (r.states or 0) - len({(p["pre"]["factory"], p["pre"]["origin"]) for p in edges if not p["pre"]["items"]}):
                 raise common.MachineryFailure("%s: %d transitions printed but TLC generated %s states" % (rn, len(edges), r.states))
             cov["transitions_replayed"] = len(edges)
             cov["prefix_not_followed"] = replay_graph(ck, cls, edges, rn)
@@ -529,8 +565,8 @@ def work(args):
                 cov["walk_steps"] += len(w["walk"])
                 ck.count(len(w["walk"]))
                 ck.nontrivial([e["op"] for e in w["walk"]])
-                run_behaviour(ck, cls, w["f0"], w["walk"], origin=rn)
-            ck.sample({"run": rn, "walk": reproduction(cls, walks[0]["f0"], walks[0]["walk"])[:10]})
+                run_behaviour(ck, cls, w["f0"], w["walk"], origin=rn, source=w["origin"])
+            ck.sample({"run": rn, "walk": reproduction(cls, walks[0]["f0"], walks[0]["walk"], walks[0]["origin"])[:10]})
     s = r.summary()
     s["run"] = rn
     return {"tlc": s, "cov": cov, "violations": ck.violations, "known": ck.known_hits, "n": ck.evaluations,
@@ -573,7 +609,7 @@ def replay(path):
     ck = common.Check("C17", "replay", "model_checking", RULE)
     if "steps" in case:
         print("\n".join(case.get("python", [])))
-        run_behaviour(ck, case["cls"], case["f0"], case["steps"], origin="replay")
+        run_behaviour(ck, case["cls"], case["f0"], case["steps"], origin="replay", source=case.get("source", "ctor"))
     else:
         nonstring_keys(ck)
     for s, (w, _) in ck.violations.items():
